@@ -103,6 +103,14 @@ def absent_labels(desc):
         if s > 1 and desc['n'] > 1:
             out.append(desc['start'] + 1)  # between two labels
         return out
+    if k == 'np' and labs:
+        # near misses that a cast into the array's dtype would collapse onto a present label
+        if isinstance(labs[0], str):
+            near = [labs[-1] + 'zz', labs[0] + ' ', 7]
+        else:
+            near = [labs[0] + 0.5, str(labs[0]), labs[-1] + 0.25]
+        return [c for c in near if spans_pos_none(labs, c)] + [c for c in (['zz', ''] if isinstance(labs[0], str) else [99, -7])
+                                                               if c not in labs][:1]
     if k in ('list', 'np', 'pdindex'):
         cands = ['zz', 'A', 99, -7, 3.25]
         if k != 'list':
@@ -125,6 +133,10 @@ def absent_labels(desc):
         last = labs[-1] if labs else first
         return [first - off, last + off, (last + 2 * off).strftime('%Y-%m-%d')]
     raise ValueError(desc)
+
+
+def spans_pos_none(labs, label):
+    return pos(labs, label) is None
 
 
 def pos(labs, label):
